@@ -52,7 +52,7 @@ def cancelled_true(r):
 def expected_value(case, i, values):
     c = case["calls"][i - 1]
     args = [values.get(str(d)) for d in c.get("deps", [])]
-    if c.get("nest"):
+    for _ in range(int(c.get("nest") or 0)):
         args = [args]
     return ["v", i] + args
 
